@@ -64,8 +64,14 @@ def mk_gbox(shape, rotated=False, crs="epsg:32633"):
 def read_mem(buf):
     from rasterio.io import MemoryFile
 
-    with MemoryFile(buf) as m, m.open() as f:
-        return read_ds(f)
+    with MemoryFile(buf) as m:
+        with m.open() as f:
+            r = read_ds(f)
+        r["ovr_shapes"] = []
+        for k in range(len(r["overviews"][0])):
+            with m.open(overview_level=k) as f:
+                r["ovr_shapes"].append((f.height, f.width))
+        return r
 
 
 def tiff_tiles(src):
@@ -156,8 +162,8 @@ def gen_cases(out, tier, scratch):
                     warnings.simplefilter("ignore")
                     r = read_mem(R._write_cog(pix, mk_gbox((h, w)), ":mem:", overview_levels=req))
                 req_t = "None" if req is None else f"(Some {clist(req)})"
-                add("overviews", f"COvr {req_t} {cz(w)} {cz(h)} {clist(r['overviews'][0])}", (req, w, h), True,
-                    {"op": "_write_cog overview factors in file", "shape": [h, w], "requested": req, "found": r["overviews"][0]}
+                add("overviews", f"COvr {req_t} {cz(w)} {cz(h)} {cfs(r['ovr_shapes'])}", (req, w, h), True,
+                    {"op": "_write_cog overview shapes in file", "shape": [h, w], "requested": req, "found": r["ovr_shapes"]}
                     if (h, w) in ((511, 600), (512, 512)) else None)
 
     # ---- nodata precedence (write_cog)
@@ -360,10 +366,12 @@ def p_roundtrip(cfg):
             want_ovr = list(cfg["overview_levels"])
         else:
             want_ovr = [] if min(H, W) < 512 else [2, 4, 8, 16, 32]
-        if any(o != want_ovr for o in r["overviews"]):
+        if any(len(o) != len(want_ovr) for o in r["overviews"]):
             msgs.append(f"overview levels {r['overviews']} != requested {want_ovr}")
-        for k in range(len(want_ovr)):
+        for k in range(len(want_ovr) if not msgs else 0):
             with opener(overview_level=k) as f:
+                if (f.height, f.width) != (-(-H // want_ovr[k]), -(-W // want_ovr[k])):
+                    msgs.append(f"overview {k} is {(f.height, f.width)}, requested factor {want_ovr[k]} of {(H, W)}")
                 if any(b[0] % 16 or b[1] % 16 for b in f.block_shapes):
                     msgs.append(f"overview {k} blocks {f.block_shapes}")
                 if ext is not None:
